@@ -1,4 +1,5 @@
 import LP.Props.C15
+import LP.Props.C15V
 #print axioms LP.QI.C15_add
 #print axioms LP.QI.C15_neg
 #print axioms LP.QI.C15_sub
@@ -7,3 +8,5 @@ import LP.Props.C15
 #print axioms LP.QI.C15_sgn
 #print axioms LP.QI.C15_exact_points
 #print axioms LP.QI.C15_real
+#print axioms LP.VI.endpointLt_fin
+#print axioms LP.VI.C15_vi_mul_general
